@@ -97,6 +97,20 @@ Fixpoint fun_generic_loop (fuel : nat) (l : lx) : PR unit :=
     else POk tt l
   end.
 
+(* the array suffixes of parserSingleType: `for l.LookAheadKind() == ATokenVSepLbrack { "[" "]"; subType = ArrayType{subType} }`
+   (string[], string[][], ...) *)
+Fixpoint array_suffix_loop (fuel : nat) (sub : atype) (l : lx) : PR atype :=
+  match fuel with
+  | O => PFuel
+  | S f =>
+    let* (k2, l) := look_ahead_kind l in
+    if kind_eqb k2 KLbrack then
+      let* (_, l) := next_of_kind KLbrack l in
+      let* (_, l) := next_of_kind KRbrack l in
+      array_suffix_loop f (AArray sub) l
+    else POk sub l
+  end.
+
 Fixpoint parse_single_type (fuel : nat) (l : lx) : PR atype :=
   match fuel with
   | O => PFuel
@@ -120,12 +134,7 @@ Fixpoint parse_single_type (fuel : nat) (l : lx) : PR atype :=
          let* (_, l) := next_token_p l in
          POk (AConst (fst sq) (snd sq) []) l
        else error_print 3 KEOF s_not_find l) in
-    let* (k2, l) := look_ahead_kind l in
-    if kind_eqb k2 KLbrack then
-      let* (_, l) := next_of_kind KLbrack l in
-      let* (_, l) := next_of_kind KRbrack l in
-      POk (AArray sub) l
-    else POk sub l
+    array_suffix_loop f sub l
   end
 
 with parse_one_type (fuel : nat) (l : lx) : PR atype :=
@@ -377,8 +386,10 @@ Definition parse_enum_state (l : lx) : PR astat :=
   let* (k, l) := look_ahead_kind l in
   if kind_eqb k KIdent then
     let* (name, l) := next_type_identifier l in
-    if beq_bytes name s_start then POk (SEnum 1 (get_comment l)) l
-    else if beq_bytes name s_end then POk (SEnum 2 (get_comment l)) l
+    if beq_bytes name s_start || beq_bytes name s_end then
+      (* l.LookAheadKind(): the token after start / end is read ahead, so that GetRemainComment strips the "@" *)
+      let* (_, l) := look_ahead_kind l in
+      POk (SEnum (if beq_bytes name s_start then 1 else 2) (get_comment l)) l
     else POk SNotValid l
   else POk (SEnum 0 (get_comment l)) l.
 
@@ -453,7 +464,7 @@ Definition append_alias_last (stats : list astat) (ct : atype) : list astat :=
   | lst :: before => if is_alias lst then rev before ++ [append_alias lst ct] else stats
   end.
 
-(* the fragment being built: Stats, Lines (NOT kept in step by clearEmpytAlias), errors with their line *)
+(* the fragment being built: Stats, Lines (one entry per statement), errors with their line *)
 Record frag := mkFrag { f_stats : list astat; f_lines : list N; f_errs : list (N * nat * aerr) }.
    (* error entry: (line number, length of the whole line, error) *)
 
@@ -489,12 +500,31 @@ Fixpoint frag_loop (fr : frag) (lines : list (N * bytes)) : Res frag :=
   | ln :: rest => do fr' <- frag_step fr ln; frag_loop fr' rest
   end.
 
-(* clearEmpytAlias: removes alias statements without a type from Stats -- and leaves Lines alone *)
+(* clearEmpytAlias: `for i := 0; i < len(Stats); i++` removes an alias statement without a type from Stats and the
+   entry with the same index from Lines:
+       Stats = append(Stats[:i], Stats[i+1:]...); Lines = append(Lines[:i], Lines[i+1:]...); i--
+   `stats` / `lines` are Stats[i:] / Lines[i:] (Lines[i:] = [] when Lines is shorter than i).  Lines[i+1:] panics
+   (slice bounds out of range) when len(Lines) < i+1; Proofs/AnnTotal.v: Stats and Lines always have the same
+   length here, so the Fault is unreachable. *)
 Definition empty_alias (s : astat) : bool := match s with SAlias _ None _ => true | _ => false end.
-Definition clear_empty_alias (fr : frag) : frag :=
-  mkFrag (filter (fun s => negb (empty_alias s)) (f_stats fr)) (f_lines fr) (f_errs fr).
+Fixpoint clear_loop (stats : list astat) (lines : list N) : Res (list astat * list N) :=
+  match stats with
+  | [] => Ok ([], lines)
+  | s :: r =>
+    if empty_alias s then
+      match lines with
+      | [] => Fault SliceBounds
+      | _ :: lr => clear_loop r lr
+      end
+    else
+      do p <- clear_loop r (tl lines);
+      Ok (s :: fst p, firstn 1 lines ++ snd p)
+  end.
+Definition clear_empty_alias (fr : frag) : Res frag :=
+  do p <- clear_loop (f_stats fr) (f_lines fr);
+  Ok (mkFrag (fst p) (snd p) (f_errs fr)).
 
 (* ParseCommentFragment *)
 Definition parse_fragment (lines : list (N * bytes)) : Res frag :=
   do fr <- frag_loop (mkFrag [] [] []) lines;
-  Ok (clear_empty_alias fr).
+  clear_empty_alias fr.
